@@ -432,6 +432,7 @@ func (e *expression) Value(ctx *hcl.EvalContext) (cty.Value, hcl.Diagnostics) {
 		attrs := map[string]cty.Value{}
 		attrRanges := map[string]hcl.Range{}
 		known := true
+		var marks []cty.ValueMarks
 		for _, jsonAttr := range v.Attrs {
 			// In this one context we allow keys to contain interpolation
 			// expressions too, assuming we're evaluating in interpolation
@@ -483,6 +484,11 @@ func (e *expression) Value(ctx *hcl.EvalContext) (cty.Value, hcl.Diagnostics) {
 				known = false
 				continue
 			}
+			// A key derived from a marked value can't itself carry the marks,
+			// so (as in the native syntax) we transfer them to the object
+			// as a whole.
+			name, nameMarks := name.Unmark()
+			marks = append(marks, nameMarks)
 			nameStr := name.AsString()
 			if _, defined := attrs[nameStr]; defined {
 				diags = append(diags, &hcl.Diagnostic{
@@ -503,7 +509,7 @@ func (e *expression) Value(ctx *hcl.EvalContext) (cty.Value, hcl.Diagnostics) {
 			// we can't know what our type will eventually be.
 			return cty.DynamicVal, diags
 		}
-		return cty.ObjectVal(attrs), diags
+		return cty.ObjectVal(attrs).WithMarks(marks...), diags
 	case *nullVal:
 		return cty.NullVal(cty.DynamicPseudoType), nil
 	default:
